@@ -211,3 +211,13 @@ func runCase(c *Case, f func()) (r *Result) {
 	r.Done = true
 	return r
 }
+
+// MergeX runs a PURE closure (no heap writes that are read later, no
+// Assert) and returns its result.  Under gosym all paths of the closure are
+// explored locally and joined into one if-then-else term, so the caller
+// continues as a single path (state merging).
+func MergeInt(f func() int) int             { return f() }
+func MergeInt64(f func() int64) int64       { return f() }
+func MergeUint64(f func() uint64) uint64    { return f() }
+func MergeBool(f func() bool) bool          { return f() }
+func MergeFloat64(f func() float64) float64 { return f() }
